@@ -331,6 +331,17 @@ def bounded(tier, seed, procs):
                     if r != ("val", want):
                         b4.fail(Failure("dot-graph", f"n={n} chain+shortcut=({i},{j}) order={'forward' if order[0] == 0 else 'reverse'}", dict(kind="dot", n=n, shortcut=[i, j]),
                                         expected=repr(sorted(want)), actual=outcome.describe(r)[:200], functions=["get_dot_dependency_graph"]))
+    # a long sequential program (every statement depends on the previous one, plus a few shortcuts), listed forwards and backwards
+    n = 560
+    edges = {(i, i - 1) for i in range(1, n)} | {(n - 1, 0), (300, 10), (n // 2, n // 2 - 2)}
+    want = {(f"n{a_}", f"n{c}") for (a_, c) in edges if c == a_ - 1}
+    for oname, order in (("reverse", range(n - 1, -1, -1)), ("forward", range(n))):
+        stmts = [Nop(id=f"n{k}", depends_on=frozenset(f"n{j2}" for (a_, j2) in edges if a_ == k)) for k in order]
+        r = outcome.with_alarm(120, lambda: outcome.run_rec(lambda: drawn(stmts)), default=("exc", outcome.DidNotTerminate, ("no result within 120 s",)))
+        b4.case(("long-chain", n, oname), nontrivial=True, sample=dict(n=n, order=oname))
+        if r != ("val", want):
+            b4.fail(Failure("dot-graph", f"what=long-chain n={n} order={oname}", dict(kind="dot-long", n=n, order=oname), expected=f"the {n - 1} chain edges", actual=outcome.describe(r)[:200],
+                            functions=["get_dot_dependency_graph"]))
     return [b1, b2, b3, b4]
 
 
